@@ -19,6 +19,10 @@ CLAIMED = {
          "Theorems C02_values / C02_set / C02_strings / C02_nested_nodes / C02_nodes hold for every path, graph and focus node; C02_count_partial holds whenever no node is reached both by a forward and by an inverse final step and C02_count_refuted exhibits the recorded defect (known finding mixed-final-step-dup); C02_precedence is computed through the proved-correct ParsePath model of C16. Every enumerated path with <= 2 leaves (sampled to 5) x hand-made and random graphs is validated by the real library and the three observables must equal both the model and the denotation.",
          "Trusted: Coq kernel; the reading of the Rego step templates and of the preamble helpers nodes_array / nested_nodes / find / search_subjects as PathSem.step_from (measured by the differential run; their text is tied by C02_tie_*); OPA evaluating partial set rules as unions; translator; extraction. Transitive (*) paths and custom (apiExt) properties are not modelled.",
          "DESIGN.md section 5 C02"),
+ "C01": ("Coq proof by induction over rules/formulas of any depth and width and any graph: the generator's failure DNF (model of Dispatch / GenerateAnd / GenerateOr / expandBranches / GenerateConditional / nested, through the parser's Negate()) reports a node iff the formula's two-polarity reading fails (C01_literal), which is the classical reading wherever negated atoms are complementary (C01_classical, C01_iff), invariant under logically equivalent rewritings (C01_spelling, C01_rewritings); Dispatch's recursion through Negate is proved terminating (C01_dispatch_terminates) + regenerated snippet templates / preamble digest (tie) + differential run of enumerated skeletons x all truth assignments, wide and/or, quantifier, per-atom and random streams through pkg.Validate against the extracted model and the classical semantics",
+         "Theorems C01_literal / C01_classical / C01_iff / C01_results / C01_spelling / C01_rewritings / C01_dispatch_terminates hold for every formula, graph and node; the classical statement carries the boolean hypothesis compl_ok (every atom met under negation has complementary snippets at the nodes where it is evaluated; counts and the quantifiers always do) and C01_classical_refuted_D2 shows it cannot be dropped for the code as it is (known finding neg-value-atom-nonuniform). All formulas with <= 1 connective and a sample with 2 over 3 atoms (two flavours) x 8 assignments, wide and/or over multi-branch operands x 64 assignments, nested/atLeast/atMost k=0..3 over 50 parent/child configurations, every documented atom kind x 74 value configurations x both polarities, and random formulas are validated by the real library; every verdict must equal the extracted model and, where the hypothesis holds, the classical semantics.",
+         "Trusted: Coq kernel; the reading of each Rego snippet as Rules.Fpos/Fneg and of the preamble (measured by the atom stream: OPA hoists calls out of `not`, cross-type ordering, regex subset ^lit$ | ^lit | lit$ | lit); integers only (no floats); uniqueValues, rego/regoModule, exactly, moreThan* are not in the formula language of the model; translator; extraction.",
+         "DESIGN.md section 5 C01"),
 }
 WIP = "check not built yet in this session (work in progress; see DESIGN.md section 9 for the order of work)"
 
